@@ -45,6 +45,9 @@ def main(argv):
     replay = argv[argv.index("--replay") + 1] if "--replay" in argv else None
     tier = os.environ.get("VERIF_TIER") or tier
     ctx = Ctx(prop, tier, replay)
+    for old in (VERIF / "evidence" / "replays").glob(f"{prop}_*.json"):
+        if replay is None or old.resolve() != Path(replay).resolve():
+            old.unlink()
     mod = importlib.import_module(f"harness.checks.{prop.lower()}")
 
     # ---- 1. Lean: build, forbidden tokens, axiom audit -------------------------------------
